@@ -48,6 +48,7 @@ type vWorld struct {
 	byStop   map[string]bool // last exit was caused by a signal
 	startEnv map[string][]string
 	startDir map[string]string
+	startCmd map[string]string // command line (executable + arguments) of the last launch
 	onStart  func(name string, attempt int)
 	onStop   func(name string, sig int)
 	onExit   func(name string, code int)
@@ -82,7 +83,7 @@ func vAt(proc string) string {
 func vInit() *vWorld {
 	vW = &vWorld{behav: map[string]*vBehav{}, behavKey: map[string]*vBehav{}, alive: map[string]int{}, aliveKey: map[string]int{}, startKey: map[string]int{}, starts: map[string]int{}, exits: map[string]int{},
 		stops: map[string]int{}, lastCode: map[string]int{}, byStop: map[string]bool{}, startEnv: map[string][]string{},
-		startDir: map[string]string{}, started: make(chan string, 64), live: map[string]*vCmd{}}
+		startDir: map[string]string{}, startCmd: map[string]string{}, started: make(chan string, 64), live: map[string]*vCmd{}}
 	VerifCommanderHook = func(p *Process) command.Commander { return vNewCmd(p) }
 	vLastYield = map[string]string{}
 	VerifYieldHook = func(proc, label string) {
@@ -135,6 +136,7 @@ type vCmd struct {
 	code    int
 	env     []string
 	dir     string
+	cmdline string
 	started bool
 	killed  bool // died by itself (crash) while it was meant to run on: exit code from the script
 	pipes   []*vPipe
@@ -145,7 +147,7 @@ func vNewCmd(p *Process) *vCmd {
 	vW.mu.Lock()
 	k := vW.starts[name]
 	vW.mu.Unlock()
-	return &vCmd{name: name, attempt: k, key: p.procConf.Name + "/" + strconv.Itoa(p.procConf.ReplicaNum)}
+	return &vCmd{name: name, attempt: k, key: p.procConf.Name + "/" + strconv.Itoa(p.procConf.ReplicaNum), cmdline: strings.Join(p.getCommand(), " ")}
 }
 
 func (c *vCmd) id() string { return c.name + "#" + strconv.Itoa(c.attempt) }
@@ -165,6 +167,7 @@ func (c *vCmd) Start() error {
 	n := w.alive[c.name]
 	w.startEnv[c.name] = c.env
 	w.startDir[c.name] = c.dir
+	w.startCmd[c.name] = c.cmdline
 	w.live[c.name] = c
 	w.mu.Unlock()
 	verifEvent("start " + c.id())
